@@ -73,7 +73,7 @@ func (withdrawTx) Validate(ctx *action.Context, signedTx action.SignedTx) (bool,
 	if !ok {
 		panic("no default currency available in the network")
 	}
-	if currency.Name != withdraw.WithdrawAmount.Currency {
+	if currency.Name != withdraw.WithdrawAmount.Currency || !withdraw.WithdrawAmount.IsValid(ctx.Currencies) {
 		return false, errors.Wrap(action.ErrInvalidAmount, withdraw.WithdrawAmount.String())
 	}
 	err = withdraw.ValidatorAddress.Err()
